@@ -14,6 +14,11 @@ def main():
     name, wt = sys.argv[1], sys.argv[2]
     pids = [a for a in sys.argv[3:] if not a.startswith("--")]
     made_wt = False
+    if "--fast" in sys.argv:
+        # no demonstration run: the saved seed is applied to /repo, the checks run, /repo is restored
+        wt = os.path.join(V, "seeded", name)
+        fast_body(name, pids)
+        return
     if wt == "-":
         # fresh scratch worktree from the saved seed
         wt = "/tmp/wt/seedtest-" + name
@@ -28,6 +33,34 @@ def main():
     finally:
         if made_wt:
             run("git -C /repo worktree remove --force %s" % wt)
+
+
+def fast_body(name, pids):
+    dst = os.path.join(V, "seeded", name)
+    meta = json.load(open(os.path.join(dst, "meta.json")))
+    pids = pids or [meta["property"]]
+    rc, out = run("git -C /repo status --porcelain")
+    if out.strip():
+        print("/repo not clean, refusing"); sys.exit(4)
+    saved = {}
+    for pid in pids:
+        ep = os.path.join(V, "evidence", pid + ".json")
+        if os.path.exists(ep):
+            saved[ep] = open(ep).read()
+    caught = False
+    try:
+        rc, out = run("git -C /repo apply %s" % os.path.join(dst, "patch.diff"))
+        if rc != 0:
+            print("patch does not apply to /repo:", out); sys.exit(5)
+        for pid in pids:
+            rc, out = run("./rv check %s --tier quick" % pid, cwd=V)
+            print(pid, rc, [l for l in out.split("\n") if l.startswith("VIOLATION")][:1])
+            caught = caught or rc == 1
+    finally:
+        run("git -C /repo checkout -- .")
+        for ep, txt in saved.items():
+            open(ep, "w").write(txt)
+    print("CAUGHT" if caught else "MISSED")
 
 
 def body(name, wt, pids):
